@@ -7,6 +7,7 @@ mod core_pp;
 mod crash;
 mod db;
 mod delta;
+mod finishops;
 mod flock;
 mod image;
 mod seglog;
@@ -87,6 +88,7 @@ fn main() {
         "seglog" => seglog::run(seed, cases, &mut sink),
         "triepos" => triepos::run(seed, cases, &mut sink),
         "shards" => shards::run(seed, cases, &mut sink),
+        "finishops" => finishops::run(seed, cases, &mut sink),
         "delta" => delta::run(seed, cases, &mut sink),
         "delta-log" => delta::run_log(seed, cases, &mut sink),
         "overflow" => overflow::run(seed, cases, &mut sink),
